@@ -246,7 +246,7 @@ REG = {
     },
     "C13": {
         "level": "fault_enumeration",
-        "technique": "fault enumeration by generated scenarios: seven disconnect points (before join, with q queued commands, on receiving a command, during a slow write callback, around timer expiry, during a duplicate-key refusal, while the session manager lags behind another terminal's full command queue, and - TestC13Stall - a terminal that stopped reading, with a 12 MB command blocking its writer and the commands behind it blocking the session manager, leaving with FIN only / close / reset) x close/reset x q in 0..6 x timeouts x seeded micro-delays, each in a fresh child process; oracle = process alive + every call returned within timeout + slack + a fresh terminal can be commanded afterwards",
+        "technique": "fault enumeration by generated scenarios: seven disconnect points (before join, with q queued commands, on receiving a command, during a slow write callback, around timer expiry, during a duplicate-key refusal, while the session manager lags behind another terminal's full command queue, and - TestC13Stall - a terminal that stopped reading, with a 12 MB command blocking its writer and the commands behind it blocking the session manager, leaving with FIN only / close / reset) x close/reset x q in 0..6 x timeouts x seeded micro-delays, each in a fresh child process; oracle = process alive + every call returned within timeout + slack + a fresh terminal can be commanded afterwards; TestC13Timeouts: 2..5 commands with different timeouts (a long one first) outstanding on one silent online terminal, each call must return within its own timeout plus slack",
         "level_text": "Hard evidence: the child must exit normally and print its history (no 'send on closed channel', no deadlock). Soft evidence (re-run, 2 of 3): every in-flight SendActiveMessage call returned exactly once within timeout + 3 s with a response or an error; afterwards a fresh terminal (optionally re-using the victim's key) joins, is commanded and answers.",
         "level_note": "Schedule search, not schedule enumeration: the harness owns terminals, callers, fault points and barrier-released micro-delays but not the Go scheduler; a window narrower than the injected jitter can be missed.",
         "rule": "rapid over (fault point, q, timeouts, close mode, delays); non-trivial = at least one call in flight at the instant of the fault",
@@ -255,6 +255,7 @@ REG = {
         "parts": [
             rapid("sys", "TestC13", 50, 800, qs=12, ts=16),
             rapid("sys", "TestC13Stall", 16, 240, qs=8, ts=16),
+            rapid("sys", "TestC13Timeouts", 2, 24, qs=8, ts=16),
         ],
     },
     "C18": {
